@@ -13,11 +13,9 @@ from vlib import env, certs
 from checks import c06, c07
 
 env.prepare()
-import admin.certificate_v2 as cv2                                   # noqa: E402
 from admin.certificate import (HSMCertificate, HSMCertificateRoot,   # noqa: E402
                                HSMCertificateV2ElementX509)
 
-cv2.datetime = certs.FakeDatetime
 
 ID = "C16"
 LEVEL = "exploration"
@@ -45,6 +43,9 @@ DEFECTS = ["self-signed", "cycle2", "cycle3", "dangling-signer", "nonstring-sign
            "unknown-type", "dangling-target", "dup-target", "nonstring-target",
            "elements-not-list", "targets-not-list", "element-not-object", "top-not-object",
            "missing-top-field", "bad-hex"]
+V2_SHAPES = ["att-msg-extended", "quote-msg-extended", "att-msg-short", "quote-msg-short",
+             "att-key-compressed", "auth-empty", "other-target"]
+KNOWN_SIG = "validation-raises:NotImplementedError"
 ROOT1_PUB = certs.pub_uncompressed(certs.sk_from_int(12345))
 
 
@@ -94,6 +95,16 @@ def cases(draw, tier):
     if g == 2:
         cc = draw(c07.cases(tier))
         return {"kind": "genuine-v2", "c07": cc}
+    if g == 3:
+        # validly signed version-2 certificates of unusual but loadable shape
+        cc = draw(c07.cases(tier))
+        cc["corruptions"] = []
+        return {"kind": "shaped-v2", "c07": cc,
+                "shape": draw(st.sampled_from(V2_SHAPES)),
+                "extra": draw(st.binary(min_size=1, max_size=8)),
+                "cut": draw(st.integers(1, 300)),
+                "target": draw(st.sampled_from(["attestation", "quoting_enclave", "top"])),
+                "with_quote": draw(st.booleans())}
     v = draw(st.sampled_from([1, 2]))
     pool = V1N if v == 1 else V2N
     rootname = "root" if v == 1 else "sgx_root"
@@ -207,6 +218,31 @@ def render(c):
     if c["kind"] == "genuine-v2":
         doc, root_map, broken, labels, v = c07.apply(c["c07"])
         return json.dumps(doc), HSMCertificateV2ElementX509(root_map), 2
+    if c["kind"] == "shaped-v2":
+        doc, root_map, broken, labels, v = c07.apply(c["c07"])
+        els = {e["name"]: e for e in doc["elements"]}
+        sh = c["shape"]
+        if sh in ("att-msg-extended", "att-msg-short"):
+            m = bytes.fromhex(els["attestation"]["message"])
+            m = m + c["extra"] if sh == "att-msg-extended" else m[:-c["cut"]]
+            els["attestation"]["message"] = m.hex()
+            els["attestation"]["signature"] = certs.sign_p256(
+                v.keys["quoting_enclave"], m).hex()
+        elif sh in ("quote-msg-extended", "quote-msg-short"):
+            m = bytes.fromhex(els["quote"]["message"])
+            m = m + c["extra"] if sh == "quote-msg-extended" else m[:-c["cut"]]
+            els["quote"]["message"] = m.hex()
+            els["quote"]["signature"] = certs.sign_p256(v.keys["attestation"], m).hex()
+        elif sh == "att-key-compressed":
+            raw = bytes.fromhex(els["attestation"]["key"])
+            els["attestation"]["key"] = (bytes([2 + (raw[-1] & 1)]) + raw[1:33]).hex()
+        elif sh == "auth-empty":
+            v2 = certs.V2Cert(dict(c["c07"]["spec"], auth=b""))
+            doc, root_map = v2.to_dict(), v2.root_element_map()
+        elif sh == "other-target":
+            t = v.chain[-1] if c["target"] == "top" else c["target"]
+            doc["targets"] = (["quote"] if c["with_quote"] else []) + [t]
+        return json.dumps(doc), HSMCertificateV2ElementX509(root_map), 2
     v = c["v"]
     root = HSMCertificateRoot(ROOT1_PUB.hex()) if v == 1 else \
         HSMCertificateV2ElementX509(certs.V2Cert(
@@ -241,7 +277,13 @@ def _alarm(*a):
 
 
 def guarded(fn, what, text):
+    """fn() under a 10 s alarm of its own; the runner's per-case watchdog (handler and the time
+    it had left) is put back afterwards."""
+    import time
     for attempt in (1, 2):
+        prev = signal.getsignal(signal.SIGALRM)
+        left = signal.alarm(0)
+        t0 = time.monotonic()
         signal.signal(signal.SIGALRM, _alarm)
         signal.alarm(10)
         try:
@@ -251,6 +293,9 @@ def guarded(fn, what, text):
                 raise Violation("does-not-terminate:" + what, text[:1500])
         finally:
             signal.alarm(0)
+            signal.signal(signal.SIGALRM, prev if prev is not None else signal.SIG_DFL)
+            if left:
+                signal.alarm(max(1, int(left - (time.monotonic() - t0))))
 
 
 def norm(res):
@@ -347,10 +392,12 @@ def judge_text(text, root, labels):
     if not isinstance(res, dict) or (tset is not None and set(res) != tset):
         raise Violation("no-verdict-for-some-target", "verdicts %r targets %r" % (res, targets))
     for k, vv in res.items():
-        if not isinstance(vv, tuple) or type(vv[0]) is not bool:
+        if not isinstance(vv, (tuple, list)) or len(vv) < 2 or type(vv[0]) is not bool:
             raise Violation("verdict-shape", repr(vv)[:200])
     try:
-        res_again = cert.validate_and_get_values(root)
+        res_again = guarded(validate, "second validation", text)
+    except Violation:
+        raise
     except Exception as e:
         raise Violation("second-validation-raises:%s" % type(e).__name__, str(e)[:200])
     if norm(res_again) != norm(res):
@@ -360,16 +407,17 @@ def judge_text(text, root, labels):
     # save / load round trip
     p2 = tmpfile("saved.json")
     try:
-        cert.save_to_jsonfile(p2)
+        guarded(lambda: cert.save_to_jsonfile(p2), "save", text)
+    except Violation:
+        raise
     except Exception as e:
-        if anyvalid:
-            raise Violation("save-refuses-validated-certificate", "%s: %s" % (
-                type(e).__name__, str(e)[:200]))
-        labels.append("save-refused")
-        return True
+        raise Violation("save-refuses-loaded-certificate", "%s: %s; document %s" % (
+            type(e).__name__, str(e)[:200], text[:1000]))
     try:
-        c2 = HSMCertificate.from_jsonfile(p2)
-        r2 = c2.validate_and_get_values(root)
+        c2 = guarded(lambda: HSMCertificate.from_jsonfile(p2), "load of the saved file", text)
+        r2 = guarded(lambda: c2.validate_and_get_values(root), "validation after reload", text)
+    except Violation:
+        raise
     except Exception as e:
         raise Violation("saved-certificate-does-not-load", "%s: %s; document %s" % (
             type(e).__name__, str(e)[:200], text[:1000]))
@@ -384,6 +432,8 @@ def run_case(c):
     labels = ["kind:" + c["kind"], "version:%s" % v]
     for d in c.get("defects", []):
         labels.append("defect:" + d)
+    if c["kind"] == "shaped-v2":
+        labels.append("shape:" + c["shape"])
     loaded = judge_text(text, root, labels)
     interesting = loaded or any(d in ("self-signed", "cycle2", "cycle3", "dangling-signer",
                                       "dangling-target") for d in c.get("defects", []))
@@ -392,6 +442,8 @@ def run_case(c):
 
 REQUIRED_LABELS = {t: ["loaded", "loaded-with-targets", "some-target-valid", "round-trip",
                        "kind:genuine-v1", "kind:genuine-v2", "version:1", "version:2"] +
+                   ["shape:" + x for x in V2_SHAPES if x != "other-target"] +
+                   ["shape:other-target|known-finding-hit"] +
                    ["defect:" + d for d in DEFECTS] for t in ("quick", "thorough")}
 
 
